@@ -1,5 +1,18 @@
+//! Engine E2 `store-mon`: monitors over the real on-chain programs executed in `hostsvm`,
+//! plus direct monitors on program state types.
+pub mod world;
+
 fn main() {
     let args = vcommon::Args::parse();
-    eprintln!("no monitor for {}", args.id);
-    std::process::exit(2);
+    let code: Option<i32> = match args.id.as_str() {
+        "smoke" => Some(world::smoke()),
+        _ => None,
+    };
+    match code {
+        Some(c) => std::process::exit(c),
+        None => {
+            eprintln!("store-mon: no monitor for {}", args.id);
+            std::process::exit(2)
+        }
+    }
 }
